@@ -355,6 +355,8 @@ func CoerceString(v Value) string {
 
 // GetAttr attempts to access the given value and return the specified attribute.
 func GetAttr(v Value, attr Value, args ...Value) (Value, error) {
+	// A key marked safe (the result of |raw or |escape) is the key inside.
+	attr = unwrapSafe(attr)
 	r := reflect.Indirect(reflect.ValueOf(v))
 	if !r.IsValid() {
 		return nil, fmt.Errorf("getattr: value does not support attribute lookup: %T", v)
